@@ -320,5 +320,35 @@ CHECKS["C13"] = {
     ],
 }
 
+CHECKS["C18"] = {
+    "level": "exploration",
+    "claim": ("Perturb-and-observe under the race detector: (a) storms against a real server in a virtual-time bubble - 2-4 clients, 3 peers and a "
+              "chaos actor each act from their own goroutine at the same virtual instants (all cores), with LIFETIME 1-4 s and permission/channel "
+              "timeouts 1-5 s so that expiries coincide with requests, injected relay socket errors, Server.Close racing with traffic, "
+              "lifecycle callbacks and the auth handler sleeping virtual time; (b) the TCP-relay world of C16 (duplicate Connect, binds, "
+              "closes) and (c) the client worlds (concurrent writers, Close racing with traffic) rebuilt with -race. Any DATA RACE report, any "
+              "panic in any goroutine, any mutex not TryLock-able at quiescence, any goroutine left after teardown, and any imbalance of "
+              "sockets / allocations / lifecycle events once everything is gone is a violation."),
+    "level_note": ("Scheduler interleavings are perturbed, not enumerated: a race that needs a preemption between two specific instructions may be "
+                   "missed. The statement's 'never return from any code path with a lock held' is decided only for the paths the generators "
+                   "reach (lock-at-quiescence probe after every step of the TCP world and at the end of every storm); no static all-paths "
+                   "claim is made. Callbacks sleep only where the library holds no lock: a goroutine waiting for a mutex is not durably "
+                   "blocked for testing/synctest, so a sleep under a contended lock would freeze the virtual clock (harness limitation)."),
+    "technique": "property-based schedule perturbation: rapid-generated concurrent storms and worlds under the Go race detector, order-insensitive invariants (lock probe, resource and event balance, goroutine drain)",
+    "rule": "non-trivial = at least one round in which several actors act in the same virtual instant against shared state (every storm with >= 1 action), or a TCP-world case with a successful bind and a duplicate Connect; distinct by hash",
+    "assumptions": [],
+    "stages": [
+        {"name": "storm-race", "pkg": "srvworld", "run": "^TestC18Storm$", "race": True,
+         "quick": {"shards": 4, "checks": 150, "timeout_s": 500},
+         "thorough": {"shards": 16, "checks": 3000, "timeout_s": 3000}},
+        {"name": "tcp-race", "pkg": "srvworld", "run": "^TestC18TCP$", "race": True,
+         "quick": {"shards": 2, "checks": 300, "timeout_s": 500},
+         "thorough": {"shards": 8, "checks": 5000, "size": 40, "timeout_s": 3000}},
+        {"name": "client-race", "pkg": "cliworld", "run": "^TestC18Client$", "race": True,
+         "quick": {"shards": 2, "checks": 150, "timeout_s": 500},
+         "thorough": {"shards": 8, "checks": 3000, "timeout_s": 3000}},
+    ],
+}
+
 _NOT_BUILT = "check not built yet in this round (planned, see DESIGN.md section 4)"
 PENDING = {("C%02d" % i): _NOT_BUILT for i in range(1, 21)}
